@@ -180,6 +180,15 @@ def build_reps(ir, onnx, serde, code, shape, pats, ref_bytes, tmpdir, case, clea
         else:
             arr = np.array(pats, dtype=np.uint8).reshape(shape)
         yield "tensor_unpacked", ir.Tensor(arr, dtype=dtype, name="t"), {"nonnative": True}
+    # memory layouts of the backing array: the logical (row-major) content is the same, the strides are not
+    if len(shape) >= 2 and size > 1:
+        yield "tensor_fortran_order", ir.Tensor(np.asfortranarray(exp.copy()), dtype=dtype, name="t"), {"layout": True}
+        tview = np.ascontiguousarray(exp.T).T  # a transposed view: equal to exp, Fortran-contiguous
+        yield "tensor_transposed_view", ir.Tensor(tview, dtype=dtype, name="t"), {"layout": True}
+    if size > 0 and len(shape) >= 1:
+        big = np.zeros(tuple(shape[:-1]) + (shape[-1] * 2,), dtype=exp.dtype)
+        big[..., ::2] = exp
+        yield "tensor_strided_view", ir.Tensor(big[..., ::2], dtype=dtype, name="t"), {"layout": True}
     if b in (2, 4):
         yield "packed", ir.PackedTensor(np.frombuffer(ref_bytes, dtype=np.uint8).copy(), dtype, shape=shape, name="t"), {}
     praw = onnx.TensorProto(data_type=code, dims=shape, name="t", raw_data=ref_bytes)
@@ -215,6 +224,19 @@ def build_reps(ir, onnx, serde, code, shape, pats, ref_bytes, tmpdir, case, clea
     tt = _torch_tensor(ir, code, exp)
     if tt is not None:
         yield "torch", tt, {}
+        torch = _TORCH[0]
+        try:
+            flat = tt.raw.reshape(-1)
+            if size > 0:
+                # a contiguous view into a larger storage (one row of a stacked weight, a slice of a fused buffer)
+                bigger = torch.cat([flat, flat, flat])
+                view = bigger[size: 2 * size].reshape(shape)
+                yield "torch_view_with_storage_offset", _TORCH[1].TorchTensor(view, name="t"), {"layout": True}
+            if len(shape) >= 2 and size > 1:
+                nc = tt.raw.transpose(0, 1).contiguous().transpose(0, 1)  # equal content, not contiguous
+                yield "torch_non_contiguous", _TORCH[1].TorchTensor(nc, name="t"), {"layout": True}
+        except Exception:
+            pass
 
 
 _TORCH = None
